@@ -19,7 +19,9 @@ Sizes == {"small", "s127", "s128", "s129", "s255", "s256", "s257", "s65535"}
 FacetValues == [
     attrs  |-> {"ok", "missing_ct", "missing_md", "missing_st", "dup_ct", "dup_md", "dup_st", "unknown"},
     digest |-> {"ok", "bad", "short", "long", "empty"},     \* wrong octet; a proper prefix; the digest plus one octet; no octets
-    sig    |-> {"ok", "wrongkey", "bitflip"},
+    \* "stale": the signature is the good signature of the conforming object (which has been validated before - conforming objects
+    \* are the model's initial states), the signed attributes have since changed by one second of signing time
+    sig    |-> {"ok", "wrongkey", "bitflip", "stale"},
     sid    |-> {"ok", "bad", "long"},                  \* one bit wrong; the right identifier followed by one more octet
     \* the embedded certificate: signed by another key, outside its validity, wrong AKI, a CA certificate (cA = TRUE), or a
     \* subject key identifier that is not the hash of its key (the signer identifier then names that wrong identifier)
